@@ -6,6 +6,7 @@ mod dbutil;
 mod director;
 mod gen;
 mod history;
+mod lin;
 mod props;
 mod session;
 mod shapes;
